@@ -7,39 +7,34 @@
    loops with the LAST for-phrase outermost, the container of a phrase evaluated once per iteration
    of the enclosing loop, variables bound before the filter is evaluated, results accumulated in
    iteration order (list / map) or the first match returned (select / exists), with the effect trace
-   of every operand evaluation.  Operands (containers, filters, elements) are pure expressions over
-   user variables with opaque probe calls (pev). *)
+   of every operand evaluation.
+   Operands (containers, filters, elements) are `operand`s: a MiniGo expression with its meaning on the
+   user-visible environment, required to be sound (op_ok).  Sound operands are: pure expressions over
+   user variables with opaque probe calls (pure_op, C02_pure_operand_ok) and -- to any depth -- other
+   comprehensions (comp_op, C02_nested_comprehension_ok): a comprehension inside a container, a filter
+   or an element expression is covered by the same theorem. *)
 From Coq Require Import List ZArith NArith Bool.
 Import ListNotations.
 From V Require Import Base.Prelude Model.MiniGo Model.Compr Proofs.MiniGo Proofs.C02.
 Open Scope Z_scope.
 
 (* list, map, select (one- and two-value) and exists comprehensions, for EVERY list of for-phrases
-   (induction on the phrase list), every container content, filter and element expression:
-   value(s), final environment and effect trace of the compiled closure = the documented meaning *)
+   (induction on the phrase list), every container content, filter and element operand, blank loop
+   variables included, in every environment: value(s), final environment and effect trace of the
+   compiled closure = the documented meaning on the user-visible environment *)
 Theorem C02_comprehension_correct : forall err_text self en k zero ps tr vs tr',
-  Forall wf_phrase ps ->
-  spec_comprehension k zero ps en tr = Some (vs, tr') ->
+  Forall (wf_phrase err_text self) ps -> wf_kind err_text self k ->
+  spec_comprehension k zero ps (strip en) tr = Some (vs, tr') ->
   ev err_text self (lower_comprehension k zero ps) en tr = (RVal vs, en, tr').
 Proof. exact comprehension_correct. Qed.
 
-(* the four kinds, as named instances *)
-Theorem C02_comprehension_list_correct : forall err_text self en elt zero ps tr vs tr',
-  Forall wf_phrase ps ->
-  spec_comprehension (CList elt) zero ps en tr = Some (vs, tr') -> ev err_text self (lower_comprehension (CList elt) zero ps) en tr = (RVal vs, en, tr').
-Proof. exact comprehension_list_correct. Qed.
-Theorem C02_comprehension_map_correct : forall err_text self en ke ve zero ps tr vs tr',
-  Forall wf_phrase ps ->
-  spec_comprehension (CMap ke ve) zero ps en tr = Some (vs, tr') -> ev err_text self (lower_comprehension (CMap ke ve) zero ps) en tr = (RVal vs, en, tr').
-Proof. exact comprehension_map_correct. Qed.
-Theorem C02_comprehension_select_correct : forall err_text self en elt two zero ps tr vs tr',
-  Forall wf_phrase ps ->
-  spec_comprehension (CSelect elt two) zero ps en tr = Some (vs, tr') -> ev err_text self (lower_comprehension (CSelect elt two) zero ps) en tr = (RVal vs, en, tr').
-Proof. exact comprehension_select_correct. Qed.
-Theorem C02_comprehension_exists_correct : forall err_text self en zero ps tr vs tr',
-  Forall wf_phrase ps ->
-  spec_comprehension CExists zero ps en tr = Some (vs, tr') -> ev err_text self (lower_comprehension CExists zero ps) en tr = (RVal vs, en, tr').
-Proof. exact comprehension_exists_correct. Qed.
+(* operands: pure expressions ... *)
+Theorem C02_pure_operand_ok : forall err_text self e, op_ok err_text self (pure_op e).
+Proof. exact pure_op_ok. Qed.
+(* ... and comprehensions themselves (nesting to any depth: ps and k may again contain comp_op operands) *)
+Theorem C02_nested_comprehension_ok : forall err_text self k zero ps,
+  Forall (wf_phrase err_text self) ps -> wf_kind err_text self k -> op_ok err_text self (comp_op k zero ps).
+Proof. exact comp_op_ok. Qed.
 
 (* the last for-phrase is the outermost loop, in the compiled code and in the documented meaning *)
 Theorem C02_last_phrase_outermost : forall ps p s F,
@@ -50,14 +45,15 @@ Proof. exact last_phrase_outermost. Qed.
    "for each item in order: bind, test the filter, run the body" for any body that implements F
    (compileForPhraseStmt emits exactly `wrap`) *)
 Theorem C02_forphrase_correct : forall err_text self en k p s F,
-  wf_phrase p -> body_ok err_text self en k s F -> body_ok err_text self en k (wrap p s) (spec_wrap p F).
+  wf_phrase err_text self p -> body_ok err_text self en k s F -> body_ok err_text self en k (wrap p s) (spec_wrap p F).
 Proof. exact wrap_ok. Qed.
 
 (* the documented meaning is what one expects: [e for x <- l if c] = map e (filter c l) *)
 Theorem C02_single_phrase_is_map_filter : forall en x c e l (cf : val -> bool) (ef : val -> val) zero tr,
   (forall v, pev ((x, v) :: en) c = Some (VBool (cf v), [])) ->
   (forall v, pev ((x, v) :: en) e = Some (ef v, [])) ->
-  spec_comprehension (CList e) zero [{| ph_key := None; ph_val := Some x; ph_x := EConst (VList l); ph_cond := Some c |}] en tr
+  spec_comprehension (CList (pure_op e)) zero
+    [{| ph_key := None; ph_val := Some x; ph_x := pure_op (EConst (VList l)); ph_cond := Some (pure_op c) |}] en tr
   = Some ([VList (map ef (filter cf l))], tr).
 Proof. exact single_list_map_filter. Qed.
 
@@ -65,47 +61,56 @@ Proof. exact single_list_map_filter. Qed.
 Theorem C02_send_append_correct : forall err_text self en a l (ews : list (expr * val * trace)) en' tr,
   lookup en a = Some (VList l) ->
   update en a (VList (l ++ map (fun x => snd (fst x)) ews)) = Some en' ->
-  Forall (fun x => pev en (fst (fst x)) = Some (snd (fst x), snd x)) ews ->
+  Forall (fun x => pev (strip en) (fst (fst x)) = Some (snd (fst x), snd x)) ews ->
   ex err_text self (lower_send a (map (fun x => fst (fst x)) ews)) en tr = (RVal tt, en', tr ++ concat (map snd ews)).
 Proof. exact send_append_ok. Qed.
 
-(* a blank loop variable (`for _ <- xs`, emitted as `for range xs` since the repair of the
-   `for _, _ := range` lowering) is an ordinary instance of the theorems above: such a phrase is
-   well-formed, and its documented meaning is one evaluation of the element per item *)
-Theorem C02_blank_variable_wf : forall x c, wf_phrase {| ph_key := None; ph_val := None; ph_x := x; ph_cond := c |}.
+(* a blank loop variable (`for _ <- xs`, emitted as `for range xs`) is an ordinary instance: such a
+   phrase is well-formed, and its documented meaning is one evaluation of the element per item *)
+Theorem C02_blank_variable_wf : forall err_text self x c,
+  op_ok err_text self x -> match c with Some o => op_ok err_text self o | None => True end ->
+  wf_phrase err_text self {| ph_key := None; ph_val := None; ph_x := x; ph_cond := c |}.
 Proof. exact blank_wf. Qed.
 Theorem C02_blank_variable_meaning : forall en e v0 l zero tr, pev en e = Some (v0, []) ->
-  spec_comprehension (CList e) zero [{| ph_key := None; ph_val := None; ph_x := EConst (VList l); ph_cond := None |}] en tr
+  spec_comprehension (CList (pure_op e)) zero
+    [{| ph_key := None; ph_val := None; ph_x := pure_op (EConst (VList l)); ph_cond := None |}] en tr
   = Some ([VList (map (fun _ => v0) l)], tr).
 Proof. exact blank_list. Qed.
 
 (* non-vacuity: [x+y for x <- [1,3,5] if x > 1 for y <- p7([10,20])]  (y outermost; the probe on the outer
    container runs once, first) *)
 Example C02_example_two_phrases :
-  let px := {| ph_key := None; ph_val := Some (NUser 1); ph_x := EConst (VList [VInt 1; VInt 3; VInt 5]);
-               ph_cond := Some (EBin BGt (EVar (NUser 1)) (EConst (VInt 1))) |} in
-  let py := {| ph_key := None; ph_val := Some (NUser 2); ph_x := EProbe 7 (EConst (VList [VInt 10; VInt 20])); ph_cond := None |} in
-  let k := CList (EBin BAdd (EVar (NUser 1)) (EVar (NUser 2))) in
+  let px := {| ph_key := None; ph_val := Some (NUser 1); ph_x := pure_op (EConst (VList [VInt 1; VInt 3; VInt 5]));
+               ph_cond := Some (pure_op (EBin BGt (EVar (NUser 1)) (EConst (VInt 1)))) |} in
+  let py := {| ph_key := None; ph_val := Some (NUser 2); ph_x := pure_op (EProbe 7 (EConst (VList [VInt 10; VInt 20]))); ph_cond := None |} in
+  let k := CList (pure_op (EBin BAdd (EVar (NUser 1)) (EVar (NUser 2)))) in
   spec_comprehension k (VInt 0) [px; py] [] [] = Some ([VList [VInt 13; VInt 15; VInt 23; VInt 25]], [Ev 7%N [VList [VInt 10; VInt 20]]])
   /\ eval (fun _ => []) 2 (lower_comprehension k (VInt 0) [px; py]) [] []
      = (RVal [VList [VInt 13; VInt 15; VInt 23; VInt 25]], [], [Ev 7%N [VList [VInt 10; VInt 20]]]).
 Proof. vm_compute. auto. Qed.
+(* nesting, with the SAME variable name inside and outside: [x for x <- [x*10 for x, _ <- [7,8,9]]] = [0,10,20] *)
+Example C02_example_nested_same_name :
+  let inner := comp_op (CList (pure_op (EBin BMul (EVar (NUser 1)) (EConst (VInt 10))))) (VInt 0)
+                 [{| ph_key := Some (NUser 1); ph_val := None; ph_x := pure_op (EConst (VList [VInt 7; VInt 8; VInt 9])); ph_cond := None |}] in
+  let outer := [{| ph_key := None; ph_val := Some (NUser 1); ph_x := inner; ph_cond := None |}] in
+  let k := CList (pure_op (EVar (NUser 1))) in
+  spec_comprehension k (VInt 0) outer [] [] = Some ([VList [VInt 0; VInt 10; VInt 20]], [])
+  /\ eval (fun _ => []) 2 (lower_comprehension k (VInt 0) outer) [] [] = (RVal [VList [VInt 0; VInt 10; VInt 20]], [], []).
+Proof. vm_compute. auto. Qed.
 Example C02_example_blank :
-  eval (fun _ => []) 2 (lower_comprehension CExists (VInt 0) [{| ph_key := None; ph_val := None; ph_x := EConst (VList [VInt 4]); ph_cond := None |}]) [] []
+  eval (fun _ => []) 2 (lower_comprehension CExists (VInt 0) [{| ph_key := None; ph_val := None; ph_x := pure_op (EConst (VList [VInt 4])); ph_cond := None |}]) [] []
   = (RVal [VBool true], [], []).
 Proof. vm_compute. reflexivity. Qed.
 Example C02_example_select :
-  let px := {| ph_key := Some (NUser 3); ph_val := Some (NUser 1); ph_x := EConst (VList [VInt 1; VInt 3; VInt 5]);
-               ph_cond := Some (EBin BGt (EProbe 4 (EVar (NUser 1))) (EConst (VInt 1))) |} in
-  spec_comprehension (CSelect (EVar (NUser 3)) true) (VInt 0) [px] [] []
+  let px := {| ph_key := Some (NUser 3); ph_val := Some (NUser 1); ph_x := pure_op (EConst (VList [VInt 1; VInt 3; VInt 5]));
+               ph_cond := Some (pure_op (EBin BGt (EProbe 4 (EVar (NUser 1))) (EConst (VInt 1)))) |} in
+  spec_comprehension (CSelect (pure_op (EVar (NUser 3))) true) (VInt 0) [px] [] []
   = Some ([VInt 1; VBool true], [Ev 4%N [VInt 1]; Ev 4%N [VInt 3]]).
 Proof. vm_compute. reflexivity. Qed.
 
 Print Assumptions C02_comprehension_correct.
-Print Assumptions C02_comprehension_list_correct.
-Print Assumptions C02_comprehension_map_correct.
-Print Assumptions C02_comprehension_select_correct.
-Print Assumptions C02_comprehension_exists_correct.
+Print Assumptions C02_pure_operand_ok.
+Print Assumptions C02_nested_comprehension_ok.
 Print Assumptions C02_last_phrase_outermost.
 Print Assumptions C02_forphrase_correct.
 Print Assumptions C02_single_phrase_is_map_filter.
